@@ -37,6 +37,7 @@ type Obligation struct {
 	Reach       []string `json:"reach"`
 	Termination bool     `json:"termination,omitempty"` // an exceeded unwinding bound is a violation candidate (property includes termination)
 	NoValidate  bool     `json:"no_validate,omitempty"`
+	NoRaces     bool     `json:"no_races,omitempty"`
 }
 
 type CheckDef struct {
@@ -370,6 +371,7 @@ func cmdCheck(args []string) int {
 		if ob.NoValidate {
 			o.Validate = 0
 		}
+		o.NoRaces = ob.NoRaces
 		if to.Preempt != nil {
 			o.Preempt = *to.Preempt
 		}
